@@ -10,14 +10,17 @@
 EXTENDS ResolveUniverse, IeeeVectors, ResolveExamples, Json
 
 CONSTANTS MaxSteps,      \* length bound of step sequences
-          DeepSeeds,     \* "all" | "quick": seeds explored to MaxSteps (the others to 1 step)
+          DeepSeeds,     \* "quick" | "thorough" | "all": which seeds are explored to MaxSteps (the others to 1 step)
           PolicySet      \* "two" | "all": grey-zone readings the laws are checked under
 
 VARIABLES W, R, hist
 vars == <<W, R, hist>>
 
 Pols == IF PolicySet = "all" THEN Policies ELSE {StdPolicy, AltPolicy}
-Bound == IF DeepSeeds = "all" \/ W \in QuickDeepSeeds THEN MaxSteps ELSE 1
+Bound == IF DeepSeeds = "thorough" /\ W \in ThreeStepSeeds THEN MaxSteps + 1
+         ELSE IF DeepSeeds = "all" \/ (DeepSeeds = "quick" /\ W \in QuickDeepSeeds)
+                 \/ (DeepSeeds = "thorough" /\ W \in ThoroughDeepSeeds) THEN MaxSteps
+         ELSE 1
 (* after the first step only a representative part of the default pool is offered *)
 Pool == IF hist = <<>> THEN 1..Len(DefaultPool) ELSE {1, 4, 8, 13, 16, 18}
 
